@@ -206,6 +206,18 @@ def run(c: sym.Ctx, spec: Dict[str, Any], n_msgs: int = 1) -> Lab:
                     return finish(i)
                 finally:
                     lab.rec("task_end", i)
+        elif deps == "behind_plain_nocache":
+            def d_p(a: str = TaskiqDepends(d_a)) -> str:  # no teardown of its own
+                return "p:" + a
+
+            async def target(i: int, p: str = TaskiqDepends(d_p, use_cache=False)) -> Any:  # type: ignore[misc]
+                lab.rec("task_start", i)
+                try:
+                    if outcome_of(i) == "timeout":
+                        await lab.gate(f"hang:{i}")
+                    return finish(i)
+                finally:
+                    lab.rec("task_end", i)
         elif deps == "chain3":
             def d_x() -> Any:
                 lab.rec("dep_open", "x")
